@@ -22,7 +22,8 @@ Proof.
   - destruct (ip4_of_string s); eexists; reflexivity.
   - destruct (parse_ids ids); eexists; reflexivity.
   - destruct (write_extcoms l); eexists; reflexivity.
-  - destruct fam as [[afi safi]|]; [|eexists; reflexivity]. destruct (_ && _); [eexists; reflexivity|].
+  - destruct fam as [[afi safi]|]; [|eexists; reflexivity]. destruct (_ || _); [eexists; reflexivity|].
+    destruct (_ && _); [eexists; reflexivity|].
     destruct nhs as [|nh r]; [eexists; reflexivity|].
     destruct (ip4_of_string nh); [eexists; reflexivity|]. destruct (v6r nh); eexists; reflexivity.
 Qed.
